@@ -227,6 +227,9 @@ func allStacks() string {
 	return string(buf[:n])
 }
 
+// lateExpired counts runs in which ProcessFeatures returned but some target never finished within the watchdog period.
+var lateExpired int
+
 func runScenario(sc Scenario, watchdog time.Duration) Result {
 	res := Result{Index: sc.Index}
 	runtime.GOMAXPROCS(sc.Procs)
@@ -320,16 +323,25 @@ func runScenario(sc Scenario, watchdog time.Duration) Result {
 		return res
 	}
 	// let late targets finish (only happens when ProcessFeatures returned early), so that the history is complete
-	deadline := time.Now().Add(watchdog)
+	lateWait := watchdog
+	if lateExpired >= 2 { // targets that never finish were already seen twice (and are reported): do not wait a full watchdog period for every further run
+		lateWait = 150 * time.Millisecond
+	}
+	deadline := time.Now().Add(lateWait)
+	allDone := false
 	for time.Now().Before(deadline) {
 		all := true
 		for _, t := range sc.Targets {
 			all = all && fts[t].done.Load()
 		}
 		if all {
+			allDone = true
 			break
 		}
 		time.Sleep(200 * time.Microsecond)
+	}
+	if !allDone {
+		lateExpired++
 	}
 	res.Millis = float64(time.Since(t0).Microseconds()) / 1000
 	// goroutine accounting: reader and snapper are not waited for by ProcessFeatures, give them time
